@@ -45,14 +45,14 @@ var OCSPBehaviours = []string{
 	// status Unknown (and Good) carrying an invalidity date after the signing time
 	"unknown-status-inv-after", "good-inv-after",
 	// malformed
-	"empty", "garbage", "truncated", "trailing", "oversize", "wrong-type", "critical-ext",
+	"empty", "garbage", "truncated", "trailing", "oversize", "oversize-padded-good", "wrong-type", "critical-ext",
 	"st-malformed", "st-internal", "st-trylater", "st-sigrequired", "st-unauthorized",
 	// transport
 	"http-404", "http-500", "http-204", "err", "timeout", "body-err", "redirect-loop",
 }
 
 // OCSPFaults is the sub-alphabet that never carries evidence.
-var OCSPFaults = []string{"empty", "garbage", "truncated", "oversize", "st-malformed", "st-internal", "st-trylater", "st-sigrequired", "st-unauthorized",
+var OCSPFaults = []string{"empty", "garbage", "truncated", "oversize", "oversize-padded-good", "st-malformed", "st-internal", "st-trylater", "st-sigrequired", "st-unauthorized",
 	"http-404", "http-500", "http-204", "http-301", "http-403", "http-503", "err", "timeout", "body-err", "redirect-loop"}
 
 // Kit builds and caches the replies and CRLs for the certificate at one
@@ -388,6 +388,11 @@ func (k *Kit) build(beh string) netsim.Reply {
 	case "trailing":
 		b := k.Reply("good", false).Body
 		return netsim.Reply{Body: append(append([]byte{}, b...), 0x05, 0x00)}
+	case "oversize-padded-good":
+		// a complete, authentic Good answer followed by padding far beyond the
+		// 20 KiB cap: an oversized body, whatever it begins with
+		b := k.Reply("good", false).Body
+		return netsim.Reply{Body: append(append([]byte{}, b...), make([]byte, 40*1024)...)}
 	case "oversize":
 		// a well-formed, authentic Good answer that exceeds the 20 KiB cap
 		r := base()
